@@ -578,7 +578,7 @@ impl<'a> Prog<'a> {
                 self.r.count(&format!("over_denial[{}]", op), 1);
                 // the usual cause: sweeping an expired TTL grant (or revoking) removes every grant edge of
                 // that (holder, secret) pair, also permanent ones made separately
-                let collateral = self.model.grants.iter().any(|g| g.secret == secret && (g.state == GState::Revoked || g.exp.map_or(false, |(_, hi)| hi < t1)));
+                let collateral = self.model.grants.iter().any(|g| g.secret == secret && (g.state == GState::Revoked || g.exp.map_or(false, |(lo, _)| lo < t1 + MARGIN)));
                 self.r.count(if collateral { "over_denials_next_to_expired_or_revoked_grant" } else { "over_denials_other" }, 1);
                 if !collateral && std::env::var("C14_DEBUG").is_ok() {
                     eprintln!(
